@@ -42,6 +42,9 @@ def odml_tuple_import(t_count, new_value):
                 for tuple_val in n_val:
                     n_val_str += str(tuple_val) + "; "
                 return_value += [n_val_str[:-2] + ")"]
+        elif not isinstance(n_val, str):
+            # Nothing to import; the value validation of the caller refuses it.
+            return_value += [n_val]
         else:
             cln = n_val.strip()
             br_check = cln.count("(") == cln.count(")")
@@ -363,7 +366,9 @@ class BaseProperty(base.BaseObject):
         :return: list of new_value
         """
         if isinstance(new_value, str):
-            if new_value[0] == "[" and new_value[-1] == "]":
+            if len(new_value) == 0:
+                new_value = []
+            elif new_value[0] == "[" and new_value[-1] == "]":
                 new_value = list(map(str.strip, new_value[1:-1].split(",")))
             else:
                 new_value = [new_value]
@@ -867,6 +872,10 @@ class BaseProperty(base.BaseObject):
         if len(new_value) > 1:
             raise ValueError("odml.property.append: Use extend to add a list of values!")
 
+        # An empty tuple or iterator is an empty value as well.
+        if len(new_value) == 0:
+            return
+
         if self._dtype.endswith("-tuple"):
             t_count = int(self._dtype.split("-")[0])
             new_value = odml_tuple_import(t_count, new_value)
@@ -914,6 +923,10 @@ class BaseProperty(base.BaseObject):
         new_value = self._convert_value_input(obj)
         if len(new_value) > 1:
             raise ValueError("odml.property.insert: Use extend to add a list of values!")
+
+        # An empty tuple or iterator is an empty value as well.
+        if len(new_value) == 0:
+            return
 
         if self._dtype.endswith("-tuple"):
             t_count = int(self._dtype.split("-")[0])
